@@ -138,7 +138,12 @@ class LockModel(Model):
             st = world.disjoint_store()
             gs = {k: g for k, g in st.graphs.items() if len(g.nodes)}
             extra = tuple(sorted(k for k, g in st.graphs.items() if not len(g.nodes)))
-        return (tuple(sorted(((k, canon_nx(g)) for k, g in gs.items()), key=repr)), extra)
+        if self.flavour == 'shared':
+            st0 = world.shared_store()
+            healthy = st0.start_id > max(st0.graphs.nodes, default=0)
+        else:
+            healthy = all(dict.get(st.graph_node_ids, k, 1) > max(g.nodes, default=0) for k, g in st.graphs.items())
+        return (tuple(sorted(((k, canon_nx(g)) for k, g in gs.items()), key=repr)), extra, healthy)
 
     def events(self):
         ev = []
